@@ -33,6 +33,31 @@ CHECKS = {
         "finding C07-hedge-leak is matched only when the observed degrees equal the defect model exactly.",
         "5/C07",
     ),
+    "C08": (
+        "model_checking",
+        "exhaustive enumeration of degree vectors x rule status deviations x method parameters on the real RuleBlock against a reference model",
+        "Blocks of n rules whose degrees are exactly the inputs: all degree vectors over {0,.25,.5,1} (ties and zeros "
+        "by construction), all status vectors with a bounded number of disabled/unloaded rules, all 7 methods with "
+        "every parameter value (n=0..rules+1, 5 thresholds on/off the degrees, 6 comparators) are activated on the "
+        "real block and compared with the reference selection: triggered set, stored degrees, multiset of "
+        "contributions, triggered=>degree>0; vector-incapable methods must reject batches.",
+        "n <= 4 (quick) / n <= 8 (thorough, degree alphabet 3 for n >= 7); disabled rules are counted by the selecting "
+        "methods (reading 3.3 in DESIGN.md); order of contributions is not demanded.",
+        "5/C08",
+    ),
+    "C12": (
+        "model_checking",
+        "explicit-state BFS to closure over operation histories on the real OutputVariable/Engine with a lock-step reference model",
+        "For each of the 12 settings the reachable state space of a real OutputVariable is explored breadth-first to a "
+        "fixpoint under defuzzify(all batches of 1..Lb scripted values, in every result shape real defuzzifiers "
+        "produce), injected defuzzifier failures, clear(), disabled calls; a second driver explores Engine.process / "
+        "restart on a WeightedAverage engine producing the same values. The cascade reference model is stepped in "
+        "lock-step and value (all rows) and previous_value are compared after every transition; failures must leave "
+        "value, previous value and fuzzy output untouched. Closure means histories of every length are covered.",
+        "Batches up to 2 (quick) / 3 (thorough) rows; value alphabet {NaN, 0.25, 0.75, 2.0, -1.0}; range [0,1]; states "
+        "are rebuilt by replaying their shortest history on a fresh object.",
+        "5/C12",
+    ),
     "C11": (
         "exploration",
         "bounded-exhaustive enumeration of monotonic terms x activation-degree grid with an intrinsic inverse oracle",
